@@ -44,6 +44,9 @@ SIGS2 = {
     "s-ps>v": ([((0, 0), 1), ((0, 1), 1)], [((1, 0), 2)]),
     "pv-s>ps-v": ([((1, 1), 1), ((0, 0), 2)], [((0, 1), 1), ((1, 0), 1)]),
     "v-ps>v-ps": ([((1, 0), 1), ((0, 1), 1)], [((1, 0), 1), ((0, 1), 1)]),
+    # only k=0 types, one of them a pseudo-scalar: any shortcut that treats "no tensor-valued channel" as
+    # "ordinary scalar network" (e.g. a plain affine normalisation) breaks under reflections once trained
+    "s-ps>s-ps": ([((0, 0), 1), ((0, 1), 1)], [((0, 0), 1), ((0, 1), 1)]),
 }
 # for the ConvContract-only net also a rank-2 type
 SIGS2_CONV = dict(SIGS2)
@@ -547,6 +550,9 @@ def plan(ctx: Ctx) -> list:
         out.append(base_cfg(rng, arch=["block", "resnet", "unet"][ctx.seed % 3], optimizer="sgd", lr=0.5,
                             loss="smse+pull", batch=int(rng.integers(2, 5)), epochs=1, n_train=None, sig="s-v>s-v-ps",
                             use_bias=pick(bias_modes[:2]), activation=pick(acts), preact=bool(rng.integers(2))))
+        out.append(base_cfg(rng, arch=["resnet", "block"][ctx.seed % 2], optimizer="sgd", lr=0.5,
+                            loss="smse+pull", batch=int(rng.integers(2, 5)), epochs=1, n_train=None, sig="s-ps>s-ps",
+                            use_bias=pick(bias_modes[:2]), activation=pick(acts), preact=bool(rng.integers(2))))
         return out
     # thorough: 3 optimisers x 5 architectures, then variations
     for arch in ["conv", "block", "unet", "resnet", "dilresnet"]:
@@ -571,6 +577,8 @@ def plan(ctx: Ctx) -> list:
         dict(arch="unet", optimizer="adamw", lr=0.03, weight_decay=0.1, batch=4, epochs=3, sig="s-v>s-v-ps",
              validation=True, depth=2),
         dict(arch="unet", optimizer="adam", lr=0.02, batch=1, epochs=1, spatial=[8, 8], levels=2, sig="v-ps>v-ps"),
+        dict(arch="resnet", optimizer="adam", lr=0.03, batch=2, epochs=3, sig="s-ps>s-ps"),
+        dict(arch="unet", optimizer="adamw", lr=0.03, weight_decay=0.2, batch=2, epochs=2, sig="s-ps>s-ps", spatial=[8, 8]),
         dict(arch="dilresnet", optimizer="sgd", lr=0.02, batch=2, epochs=1, sig="pv-s>ps-v", is_torus=[False, False]),
         dict(arch="block", optimizer="adam", lr=0.03, batch=1, epochs=3, preact=True, sig="v-ps>v-ps", use_bias="mean"),
         dict(arch="conv", optimizer="adamw", lr=0.05, weight_decay=0.5, batch=2, epochs=3, sig="s-v>m-pv", validation=True,
